@@ -489,3 +489,78 @@ func blockInCycle(b *ssa.BasicBlock) bool {
 	}
 	return walk(b)
 }
+
+// ruleFollowerLookup: C18 FOLLOWER-LOOKUP.
+func ruleFollowerLookup() *Rule {
+	const id = "FOLLOWER-LOOKUP"
+	return &Rule{
+		ID: id,
+		Text: "r.followers holds an entry exactly for the members of the configuration in force (nextConfiguration deletes the entry of a removed node). " +
+			"Every lookup r.followers[k] whose result is dereferenced is made while k is known to be a member in the same critical section (isMember(k) tested after the last unlock), " +
+			"or its result is tested against nil: a lookup for a peer that was removed while the mutex was released yields nil and the dereference panics on a library goroutine.",
+		Floor: 2,
+		Run: func(p *Program) []Obligation {
+			followers := p.Field("Raft.followers")
+			if followers == nil {
+				return missing(id, "Raft.followers")
+			}
+			var out []Obligation
+			for _, root := range p.Roots() {
+				var keys []string
+				p.discover(root, func(a *Analysis, f *Frame, in ssa.Instruction) {
+					if lk, ok := in.(*ssa.Lookup); ok && !lk.CommaOk && p.Canon(f, lk.X).S == "r.followers" {
+						k := p.Canon(f, lk.Index).S
+						for _, x := range keys {
+							if x == k {
+								return
+							}
+						}
+						keys = append(keys, k)
+					}
+				})
+				if len(keys) == 0 {
+					continue
+				}
+				var atoms []*Atom
+				idx := map[string]int{}
+				for _, k := range keys {
+					idx[k] = len(atoms)
+					atoms = append(atoms, BoolAtom("isMember("+k+")", "r.configuration.Members["+k+"]#1"))
+				}
+				sp := NewSpace(atoms...)
+				a := NewAnalysis(p, sp)
+				a.Hook = func(a *Analysis, f *Frame, in ssa.Instruction, st State) State {
+					lk, ok := in.(*ssa.Lookup)
+					if !ok || lk.CommaOk || p.Canon(f, lk.X).S != "r.followers" {
+						return st
+					}
+					// only lookups whose result is dereferenced without a nil test
+					deref, nilTested := false, false
+					for _, r := range *lk.Referrers() {
+						switch x := r.(type) {
+						case *ssa.FieldAddr:
+							deref = true
+						case *ssa.BinOp:
+							if c, ok := x.Y.(*ssa.Const); ok && c.Value == nil {
+								nilTested = true
+							}
+						}
+					}
+					if !deref || nilTested {
+						return st
+					}
+					n := instrOrdinal(in, func(x ssa.Instruction) bool {
+						l2, ok := x.(*ssa.Lookup)
+						return ok && !l2.CommaOk
+					})
+					a.Observe("lookup r.followers["+p.Canon(f, lk.Index).S+"]"+ordSuffix(n)+" in "+chainKey(f), f, in, st).Extra["key"] = p.Canon(f, lk.Index).S
+					return st
+				}
+				a.Run(root, nil)
+				out = append(out, evalObs(a, id, a.SortedObs(), func(o *Observation, pt int) bool { return sp.Val(pt, idx[o.Extra["key"]]) == 1 }, nil,
+					"the peer is a member of the configuration in force when its follower entry is fetched for use")...)
+			}
+			return dedupe(out)
+		},
+	}
+}
